@@ -109,27 +109,36 @@ Inductive cop :=
 | CAddRefund (g : N)
 | CSubRefund (g : N)
 | CCreate (a : nat)
+| CBurst (a s : nat) (n : nat) (v : N)   (* n SetState calls on one slot, values W v, W (v+1), ... *)
 | CSnap
 | CRevert (i : Z)
 | CDiscard (i : Z).
 
 Definition nthb (l : list bytes) (i : nat) : bytes := nth i l [].
 
-Definition to_op (tbl : list (bytes * bytes)) (addrs slots : list bytes) (o : cop) : op :=
+Definition to_ops (tbl : list (bytes * bytes)) (addrs slots : list bytes) (o : cop) : list op :=
   match o with
-  | CSetState a s v => OSetState (nthb addrs a) (nthb slots s) v
-  | CSetNonce a n => OSetNonce (nthb addrs a) n
-  | CSetCode a c => OSetCode (nthb addrs a) (fst (nth c tbl ([], [])))
-  | CAddBalance a v => OAddBalance (nthb addrs a) v
-  | CSubBalance a v => OSubBalance (nthb addrs a) v
-  | CSuicide a => OSuicide (nthb addrs a)
-  | CAddLog l => OAddLog l
-  | CAddRefund g => OAddRefund g
-  | CSubRefund g => OSubRefund g
-  | CCreate a => OCreateAccount (nthb addrs a)
-  | CSnap => OSnapshot
-  | CRevert i => ORevert i
-  | CDiscard i => ODiscard i
+  | CSetState a s v => [OSetState (nthb addrs a) (nthb slots s) v]
+  | CSetNonce a n => [OSetNonce (nthb addrs a) n]
+  | CSetCode a c => [OSetCode (nthb addrs a) (fst (nth c tbl ([], [])))]
+  | CAddBalance a v => [OAddBalance (nthb addrs a) v]
+  | CSubBalance a v => [OSubBalance (nthb addrs a) v]
+  | CSuicide a => [OSuicide (nthb addrs a)]
+  | CAddLog l => [OAddLog l]
+  | CAddRefund g => [OAddRefund g]
+  | CSubRefund g => [OSubRefund g]
+  | CCreate a => [OCreateAccount (nthb addrs a)]
+  | CBurst a s n v => map (fun i => OSetState (nthb addrs a) (nthb slots s) (W (v + N.of_nat i))) (seq 0 n)
+  | CSnap => [OSnapshot]
+  | CRevert i => [ORevert i]
+  | CDiscard i => [ODiscard i]
+  end.
+
+(** run a (non-empty) list of model operations; the result is the last one's (RUnit for none). *)
+Fixpoint run_ops (H : bytes -> bytes) (backend : memdb) (s : statedb) (ops : list op) (r : ret) : statedb * ret :=
+  match ops with
+  | [] => (s, r)
+  | o :: rest => let '(s1, r1) := step H backend s o in run_ops H backend s1 rest r1
   end.
 
 (** Backend entries, by position in the universe where possible. Keys are built with the model's
@@ -193,7 +202,7 @@ Section Replay.
   (** one step on the model: new state (with the error flag the getters may have set), result,
       getter vector ++ [dbErr] *)
   Definition model_step (s : statedb) (o : cop) : statedb * ret * list N :=
-    let '(s1, r1) := step (mk_H tbl) backend s (to_op tbl addrs slots o) in
+    let '(s1, r1) := run_ops (mk_H tbl) backend s (to_ops tbl addrs slots o) RUnit in
     let '(vec, e) := obs_vec backend s1 addrs slots in
     let s2 := with_err s1 e in
     (s2, r1, vec ++ [b2n (sd_err s2)]).
